@@ -1,4 +1,5 @@
-\* thorough: two requests of different priority (the later id is the more urgent one), queue of 2, shutdown at any point - safety
+\* thorough: two requests of different priority (the later id is the more urgent one), queue of 2, shutdown at any point,
+\* quota consultations may fail - safety
 CONSTANTS
   Req = {"r1", "r2"}
   Prio <- cPrio2m
@@ -9,6 +10,7 @@ CONSTANTS
   QW = 2
   MaxNow = 4
   Shutdowns = TRUE
+  Faults = TRUE
   SplitSlotCheck = FALSE
   RequeueNewTs = FALSE
   StopAllGuarded = TRUE
@@ -17,6 +19,8 @@ CONSTANTS
   HeapFifo = TRUE
   SlotStrict = TRUE
   CallsStopAll = TRUE
+  PushBeforeRegister = FALSE
+  FaultDropsHead = FALSE
 SPECIFICATION Spec
 INVARIANTS TypeOK OneVerdict OnlyIfQuota Order SizeBound NoCrash Protocol Faithful NotStranded
 PROPERTIES DrainReleases
